@@ -70,6 +70,8 @@ InitState(p) ==
    \* futures sleeping in an awaited unfair acquire that a barging acquirer re-blocked (TaskState::Blocked: waker wakes
    \* no longer make them runnable); future tasks whose waker was invoked since their latest poll began
    hard |-> {}, due |-> {},
+   \* the execution was abandoned while a task was unwinding from a panic (set by the trace specification at the end event)
+   leak |-> FALSE,
    obs |-> [c \in 1..Len(P.tasks) |-> <<>>]]
 
 -----------------------------------------------------------------------------
@@ -605,4 +607,5 @@ Violated(s) == (IF MutexExclusion(s) THEN {} ELSE {"MutexExclusion"})
           \cup (IF BarrierBound(s) THEN {} ELSE {"BarrierBound"})
           \cup (IF StepBoundInv(s) THEN {} ELSE {"StepBound"})
           \cup (IF NoLostWake(s) THEN {} ELSE {"NoLostWake"})
+          \cup (IF s.leak THEN {"UnwindingTaskAbandoned"} ELSE {})
 =============================================================================
